@@ -2097,18 +2097,49 @@ func ruleC06(c *Ctx, r *Report) {
 			return ok && callsFunc(&call.Call, f)
 		}
 		k := 0
-		allInstrs(fn, func(in ssa.Instruction) {
+		isCmp := func(in ssa.Instruction) (*ssa.BinOp, bool) {
 			b, ok := in.(*ssa.BinOp)
 			if !ok || (b.Op != token.NEQ && b.Op != token.EQL) {
-				return
+				return nil, false
 			}
 			if !(isCallTo(b.X, getRule) && isCallTo(b.Y, getDef)) && !(isCallTo(b.Y, getRule) && isCallTo(b.X, getDef)) {
+				return nil, false
+			}
+			return b, true
+		}
+		allInstrs(fn, func(in ssa.Instruction) {
+			type cmp struct {
+				ssa.Value
+				Op token.Token
+			}
+			var b cmp
+			if bo, ok := isCmp(in); ok {
+				b = cmp{bo, bo.Op}
+			} else if call, ok := in.(*ssa.Call); ok {
+				// the comparison extracted into a package-private bool helper whose answer is that comparison
+				h := staticCallee(&call.Call)
+				if h == nil || !c.InModule(h) || len(h.Blocks) == 0 || h.Object() == nil || h.Object().Exported() || h.Signature.Results().Len() != 1 || !isBoolType(h.Signature.Results().At(0).Type()) {
+					return
+				}
+				rets := returnsOf(h)
+				if len(rets) != 1 {
+					return
+				}
+				hb, ok := stripValue(rets[0].Results[0]).(*ssa.BinOp)
+				if !ok {
+					return
+				}
+				if _, ok := isCmp(hb); !ok {
+					return
+				}
+				b = cmp{call, hb.Op}
+			} else {
 				return
 			}
 			k++
 			cons := fmt.Sprintf("sharded-table-found#%d", k)
 			var bad []Exit
-			for _, e := range condEdges(b) {
+			for _, e := range condEdges(b.Value) {
 				sharded := e.Val
 				if b.Op == token.EQL {
 					sharded = !e.Val
